@@ -59,6 +59,7 @@ class SourceModule:
                 base = ".".join(pkg + ([base] if base else []))
             for a in node.names:
                 self.imports[a.asname or a.name] = f"{base}.{a.name}"
+                self.assigns.pop(a.asname or a.name, None)
         elif isinstance(node, ast.Assign):
             for t in node.targets:
                 if isinstance(t, ast.Name):
@@ -69,6 +70,13 @@ class SourceModule:
         elif isinstance(node, ast.If):
             # module-level guards (e.g. version checks around imports): index both arms
             for sub in node.body + node.orelse:
+                self._index_stmt(sub)
+        elif isinstance(node, ast.Try):
+            # `try: from .x import Y  except ...: Y = fallback`: the try body wins
+            for h in node.handlers:
+                for sub in h.body:
+                    self._index_stmt(sub)
+            for sub in node.body:
                 self._index_stmt(sub)
 
     def span(self, node) -> tuple[int, int]:
